@@ -25,7 +25,7 @@ EXPLANATION = (
     "frames; inverse laws on values."
 )
 LEVEL_RULE = "one obligation per (method) / (constructor parameter) / (constructor call, attribute) / raise"
-FLOORS = {"R1": 10, "R2": 28, "R3": 20, "R4": 6, "R5": 10, "R6": 2, "R7": 1, "R8": 1}
+FLOORS = {"R1": 10, "R2": 28, "R3": 20, "R4": 6, "R5": 10, "R6": 2, "R7": 1, "R8": 1, "R9": 2, "R10": 1}
 
 COLUMN_CLASSES = ["pandera/api/pandas/components.py::Column", "pandera/api/polars/components.py::Column"]
 # attributes that a conversion between Column and Index legitimately sets itself / cannot carry over
@@ -357,7 +357,112 @@ def r7_add_columns_admission(ctx):
                "skipped, so an invalid request returns a schema instead of raising SchemaInitError", f.loc(stores[0]) if stores else "")
 
 
+def _truthy(test):
+    if isinstance(test, ast.BoolOp):
+        for v in test.values:
+            yield from _truthy(v)
+    elif isinstance(test, ast.UnaryOp) and isinstance(test.op, ast.Not):
+        yield from _truthy(test.operand)
+    else:
+        yield test
+
+
+NAME_SELFTEST = """
+def key_bad(index, i):
+    return index.name or i
+
+def key_ok(index, i):
+    return i if index.name is None else index.name
+"""
+
+
+def _name_truthiness_sites(fn_node):
+    out = []
+    for node in walk_no_nested(fn_node):
+        tests = []
+        if isinstance(node, (ast.If, ast.While, ast.IfExp, ast.Assert)):
+            tests.append(node.test)
+        elif isinstance(node, ast.comprehension):
+            tests += node.ifs
+        for t in tests:
+            for a in _truthy(t):
+                if isinstance(a, ast.Attribute) and a.attr == "name":
+                    out.append((a, f"tested for truthiness in `{txt(t)[:50]}`"))
+        if isinstance(node, ast.BoolOp):
+            for v in node.values[:-1]:
+                if isinstance(v, ast.Attribute) and v.attr == "name" and not any(v is a for a, _ in out):
+                    out.append((v, f"the left operand of `{txt(node)[:50]}`"))
+    return out
+
+
+def r9_set_name_scope(ctx):
+    """Renaming a component changes its name and nothing else: `set_name` stores only `self.name` (the polars column may
+    additionally *switch on* the regex flag for an anchored pattern through set_regex, never clear it).  Any other store
+    changes a property the transformation does not name (rename(S) accepts rename(D) breaks for the declared regex)."""
+    ix = ctx.ix
+    n = 0
+    for mp in ("pandera/api/pandas/components.py", "pandera/api/polars/components.py", "pandera/api/dataframe/components.py"):
+        m = ix.by_path.get(mp)
+        if m is None:
+            continue
+        for c in m.classes.values():
+            for f in c.methods.get("set_name", []):
+                n += 1
+                ctx.touched(f)
+                extra = []
+                for st in walk_no_nested(f.node):
+                    tg = st.targets if isinstance(st, ast.Assign) else ([st.target] if isinstance(st, (ast.AugAssign, ast.AnnAssign)) else [])
+                    for t in tg:
+                        if isinstance(t, ast.Attribute) and txt(t.value) == "self" and t.attr != "name":
+                            extra.append(st)
+                for call in calls_in(f.node):
+                    if isinstance(call.func, ast.Attribute) and txt(call.func.value) == "self":
+                        h = c.lookup(call.func.attr)
+                        if h is None:
+                            continue
+                        for st in walk_no_nested(h.node):
+                            if isinstance(st, ast.Assign):
+                                for t in st.targets:
+                                    if isinstance(t, ast.Attribute) and txt(t.value) == "self" and t.attr != "name":
+                                        if not (t.attr == "regex" and isinstance(st.value, ast.Constant) and st.value.value is True):
+                                            extra.append(st)
+                ctx.ob("R9", f, f"{c.name}.set_name stores the name only", not extra,
+                       "writes self.name (and may switch regex on for an anchored pattern)" if not extra else
+                       f"`{txt(extra[0])[:60]}` changes another property: a column declared regex=True loses the flag on rename, so the renamed schema "
+                       "looks the (pattern) name up literally", f.loc(extra[0]) if extra else None)
+    if n < 2:
+        raise AnalysisError(f"set_name methods found: {n}")
+
+
+def r10_names_by_none_only(ctx):
+    """Component names are arbitrary hashable labels ('' and 0 are legal): the schema API decides `unnamed` by `is None`
+    only.  `index.name or i` keys a level named '' / 0 by its position, after which set_index / reset_index no longer
+    invert each other and the transformed schema rejects the transformed data."""
+    import ast as _ast
+    t = _ast.parse(NAME_SELFTEST)
+    got = {fn.name: len(_name_truthiness_sites(fn)) for fn in t.body}
+    if got != {"key_bad": 1, "key_ok": 0}:
+        raise AnalysisError(f"C15.R10 self-test failed: {got}")
+    ix = ctx.ix
+    n = 0
+    first = None
+    for mp in ("pandera/api/pandas/components.py", "pandera/api/pandas/container.py", "pandera/api/pandas/array.py", "pandera/api/dataframe/container.py",
+               "pandera/api/dataframe/components.py", "pandera/api/polars/components.py", "pandera/api/polars/container.py"):
+        m = ix.by_path.get(mp)
+        if m is None:
+            continue
+        for f in m.all_functions:
+            n += 1
+            first = first or f
+            for a, how in _name_truthiness_sites(f.node):
+                ctx.ob("R10", f, f"{f.short}: `unnamed` is decided by `name is None`", False,
+                       f"`{txt(a)}` is {how}: the legal names '' / 0 are treated as missing", f.loc(a))
+    ctx.ob("R10", first, "no truthiness test / or-fallback on a component name in the schema API modules", True, f"{n} functions analysed")
+
+
 def run(ctx):
+    r9_set_name_scope(ctx)
+    r10_names_by_none_only(ctx)
     from ..defassign import check_modules
     check_modules(ctx, "R8", ('pandera/api/dataframe/container.py', 'pandera/api/pandas/container.py', 'pandera/api/polars/container.py', 'pandera/api/base/schema.py', 'pandera/api/dataframe/components.py', 'pandera/api/pandas/components.py'), "escapes the schema transformation")
     r1_purity(ctx)
